@@ -39,7 +39,7 @@ def gen_cases(seed, tier):
     n = 64 if tier == "quick" else 1600
     out = [crash_case(ID, seed, i, tier=tier) for i in range(n)]
     # the same loop with the REAL proposals (flow saved into the run file by sample_posterior, reloaded by resume_from_file)
-    real = [("zuko", "torch"), ("zuko", "numpy")] if tier == "quick" else [("zuko", "torch"), ("zuko", "numpy"), ("zuko", "jax"), ("flowjax", "jax"), ("flowjax", "numpy")] * 3
+    real = [("zuko", "torch"), ("zuko", "numpy")] if tier == "quick" else [("zuko", "torch"), ("zuko", "numpy"), ("zuko", "jax")] * 3 + [("flowjax", "jax"), ("flowjax", "numpy"), ("flowjax", "jax")]
     for j, (backend, xp) in enumerate(real):
         out.insert(j, crash_case(ID, seed, 70000 + j, tier=tier, real_flow=backend, xp=xp))
     return out
@@ -93,9 +93,10 @@ def run_case(case, workdir):
     res = explore(
         scn, workdir, want=WANT, rng=rng,
         routes=case.get("routes") or ROUTES,
-        max_states=case.get("max_states", 4 if quick else None),
-        max_crash_points=case.get("max_crash_points", (12 if case.get("real_flow") else 60) if quick else (40 if case.get("real_flow") else None)),
-        double_crash=case.get("double_crash", 0 if quick else 1),
+        max_states=case.get("max_states", 4 if quick else (2 if case.get("real_flow") == "flowjax" else None)),
+        max_crash_points=case.get("max_crash_points", (12 if case.get("real_flow") else 60) if quick else
+                                  ((8 if case.get("real_flow") == "flowjax" else 40) if case.get("real_flow") else None)),
+        double_crash=case.get("double_crash", 0 if quick or case.get("real_flow") == "flowjax" else 1),
     )
     return finish(case, scn, res)
 
